@@ -685,6 +685,26 @@ def slice_C03(ctx):
 
 
 # ================================================================ C04
+def lines_stream(ctx, repl=""):
+    """a pattern led by ^ under flag m: the scan has to come back to the start-of-line search after every
+    match (several lines, each with a match), in all three APIs alike.  Own generator state."""
+    rng_l = random.Random(ctx.seed * 32452843 + 4)
+    out = []
+    line_pats = ["^-", "^a", "^a+", "^(?:a|b)", "^[ab]", "^a|^b", "^.", "^ab?", "^(a)(b)?", "^a+?b", "^\\w+", "^[^a\n]", "^b", "^bb?$"]
+    line_inps = ["-a\n-b\n-c", "a\na\na", "ab\nba\nab", "\na\n\nb", "a", "b\na", "aa\r\naa\naa", "ab\nab", "a\n", "\n\na\nab\n-",
+                 "a\nbb\nc", "x\n\nb\nbb\nab\nb"]
+    for p_ in line_pats:
+        for fl in ("m", "ms", "im"):
+            for inp in line_inps:
+                out.append(("xpath", fl, p_, inp, repl))
+    for _ in range(ctx.n(150, 1500)):
+        g = gen.Gen(rng_l, alphabet="ab", feats={"cls", "grp", "alt", "quant", "nc"})
+        _, p_ = g.pattern(rng_l.randint(1, 4))
+        inp = "\n".join("".join(rng_l.choice("ab-") for _ in range(rng_l.randint(0, 3))) for _ in range(rng_l.randint(2, 4)))
+        out.append(("xpath", rng_l.choice(["m", "ms"]), "^" + p_, inp, repl))
+    return out
+
+
 def slice_C04(ctx):
     tuples = []
     for d, fl, pat, inp, ast in random_stream(ctx, ctx.n(12000, 120000), dialects=("xpath", "xpath", "xsd"),
@@ -707,20 +727,8 @@ def slice_C04(ctx):
             tuples.append(("xpath", rng_p.choice(["", "i"]), p_, inp, "", "punct"))
     for d, fl, pat, inp, _ in staleend_stream(ctx, ctx.n(600, 6000)):
         tuples.append((d, fl, pat, inp, "", "staleend"))
-    # a pattern led by ^ under flag m: the scan has to come back to the start-of-line search after
-    # every match (several lines, each with a match), in all three APIs alike
-    rng_l = random.Random(ctx.seed * 32452843 + 4)
-    line_pats = ["^-", "^a", "^a+", "^(?:a|b)", "^[ab]", "^a|^b", "^.", "^ab?", "^(a)(b)?", "^a+?b", "^\\w+", "^[^a\n]"]
-    line_inps = ["-a\n-b\n-c", "a\na\na", "ab\nba\nab", "\na\n\nb", "a", "b\na", "aa\r\naa\naa", "ab\nab", "a\n", "\n\na\nab\n-"]
-    for p_ in line_pats:
-        for fl in ("m", "ms", "im"):
-            for inp in line_inps:
-                tuples.append(("xpath", fl, p_, inp, "", "lines"))
-    for _ in range(ctx.n(150, 1500)):
-        g = gen.Gen(rng_l, alphabet="ab", feats={"cls", "grp", "alt", "quant", "nc"})
-        _, p_ = g.pattern(rng_l.randint(1, 4))
-        inp = "\n".join("".join(rng_l.choice("ab-") for _ in range(rng_l.randint(0, 3))) for _ in range(rng_l.randint(2, 4)))
-        tuples.append(("xpath", rng_l.choice(["m", "ms"]), "^" + p_, inp, "", "lines"))
+    for d, fl, pat, inp, _ in lines_stream(ctx):
+        tuples.append((d, fl, pat, inp, "", "lines"))
     cases = []
     cid = 0
     for t in tuples:
@@ -998,7 +1006,7 @@ def revisit_stream(ctx, count):
 
 
 def slice_C05(ctx):
-    cases = mk_cases(arbitrary_stream(ctx) + precond_stream(ctx, ctx.n(2000, 20000)) + capalt_stream(ctx, ctx.n(1500, 15000)), "mrta")
+    cases = mk_cases(arbitrary_stream(ctx) + precond_stream(ctx, ctx.n(2000, 20000)) + capalt_stream(ctx, ctx.n(1500, 15000)) + lines_stream(ctx, "-"), "mrta")
     code, model, dis = run_slice(cases)
     violations, nontrivial = [], set()
     hist = collections.Counter()
@@ -1534,6 +1542,21 @@ def slice_C11(ctx):
                 ids.append(str(cid))
                 cid += 1
             groups_.append(ids)
+    # a repeat over a one-case class escape followed by a repeated group whose first literal is written in the
+    # other case: under i the repeat has to be able to give characters back to the group
+    for cls in ("\\p{Ll}", "\\p{Lu}", "[a-z]", "[\\p{Ll}]"):
+        for q in ("*", "+"):
+            for (g1, g2) in (("(?:Ab?)+", "(?:ab?)+"), ("(?:A|B)+", "(?:a|b)+"), ("(?:aB)*a", "(?:ab)*a"), ("(A)+", "(a)+")):
+                pat_, pat2_ = "^" + cls + q + g1 + "$", "^" + cls + q + g2 + "$"
+                for inp in ("aa", "aab", "AA", "aA", "abab", "b", "aAbB", "Aa", "AAB"):
+                    # only the literal letters of the pattern change case: a category escape is not
+                    # closed under case, so the input is left as it is
+                    ids = []
+                    for (p_, i_, f_) in ((pat_, inp, "i"), (pat2_, inp, "i"), (pat_, inp, "i"), (pat2_, inp, "i"), (pat_, inp, "")):
+                        cases.append(Case(cid, "xpath", f_, p_, i_, "", "ma", tag="class-then-group"))
+                        ids.append(str(cid))
+                        cid += 1
+                    groups_.append(ids)
     # without i a literal matches only the identical character; class escapes ignore the flag
     exact = []
     for name, (lower, upper) in CLEAN.items():
